@@ -8,6 +8,8 @@ signature accepts every call the original accepts.
 * `findUncoveredWith_some` / `findUncovered_some` : a returned form is a genuine witness
 * `findUncoveredWith_none` / `findUncovered_none` : no witness in the finite family ⇒ the
                             substitute accepts every call form the original accepts
+* `uncovered_core` / `allUncovered_core` : every mis-bound call contains one of the listed
+                            minimal single-deviation forms
 * `findUncovered_some_distinct` : the witness passes every keyword once
 * `generic_covers_all`   : a `(*args, **kwargs)` substitute accepts every call form
 -/
@@ -50,48 +52,109 @@ theorem findUncoveredWith_some (O W : Sig α) (fresh : α) (c : Call α)
   have := List.find?_some h
   simpa [uncoveredBy] using this
 
-/-- **Completeness of the finite search.** If no representative call form is accepted by `O`
-    and rejected by `W`, then *every* call form accepted by `O` is accepted by `W`. -/
-theorem findUncoveredWith_none (O W : Sig α) (fresh : α) (hf : fresh ∉ knownNames O W)
-    (h : findUncoveredWith O W fresh = none) :
-    ∀ c : Call α, binds O c = true → binds W c = true := by
-  intro c hc
-  -- abstraction
-  have hO' : binds O (absCall O W fresh c) = true := by rw [binds_abs_orig O W fresh c hf]; exact hc
-  rw [← binds_abs_subst O W fresh c hf]
-  generalize hc' : absCall O W fresh c = c' at hO'
-  have hn : c'.npos ≤ posCap O W := by rw [← hc']; simp only [absCall]; exact Nat.min_le_right _ _
-  have hkwK : ∀ k ∈ c'.kw, k ∈ knownNames O W ++ [fresh] := by
+theorem mem_candidates_base (O W : Sig α) (fresh : α) (n : Nat) (hn : n ≤ posCap O W) :
+    (⟨n, reqNames O n⟩ : Call α) ∈ candidates O W fresh := by
+  simp only [candidates, List.mem_flatMap, List.mem_range]
+  exact ⟨n, by omega, List.mem_cons_self ..⟩
+
+theorem mem_candidates_one (O W : Sig α) (fresh : α) (n : Nat) (hn : n ≤ posCap O W) (k : α)
+    (hk : k ∈ kwUniverse O W fresh) (hr : k ∉ reqNames O n) :
+    (⟨n, k :: reqNames O n⟩ : Call α) ∈ candidates O W fresh := by
+  simp only [candidates, List.mem_flatMap, List.mem_range]
+  refine ⟨n, by omega, List.mem_cons_of_mem _ (List.mem_map.mpr ⟨k, ?_, rfl⟩)⟩
+  simp [List.mem_filter, hk, hr]
+
+/-- **Minimal core of a mis-bound call.** Whenever a call form is accepted by the original and
+    rejected by the substitute, one of the representative single-deviation forms — at the capped
+    positional count, with keywords taken from the (abstracted) call — is already mis-bound. -/
+theorem uncovered_core (O W : Sig α) (fresh : α) (hf : fresh ∉ knownNames O W) (c : Call α)
+    (hO : binds O c = true) (hW : binds W c = false) :
+    ∃ c0 ∈ candidates O W fresh, uncoveredBy O W c0 = true ∧
+      c0.npos = min c.npos (posCap O W) ∧ ∀ k ∈ c0.kw, k ∈ (absCall O W fresh c).kw := by
+  have hO' : binds O (absCall O W fresh c) = true := by rw [binds_abs_orig O W fresh c hf]; exact hO
+  have hW' : binds W (absCall O W fresh c) = false := by rw [binds_abs_subst O W fresh c hf]; exact hW
+  have hnpos : (absCall O W fresh c).npos = min c.npos (posCap O W) := rfl
+  have hkwK : ∀ k ∈ (absCall O W fresh c).kw, k ∈ knownNames O W ++ [fresh] := by
     intro k hk
-    rw [← hc'] at hk
     simp only [absCall, List.mem_map] at hk
     obtain ⟨k0, _, rfl⟩ := hk
     unfold collapse
     split
     · rename_i h1; exact List.mem_append_left _ h1
     · simp
-  -- every keyword of the abstraction lies in the search universe
-  have hU : ∀ k ∈ c'.kw, k ∈ kwUniverse O W fresh := by
-    intro k hk
-    unfold kwUniverse
-    by_cases hv : hasVarKw O = true
-    · rw [if_pos hv]; exact hkwK k hk
-    · rw [if_neg hv]
-      exact kw_subset_of_binds O c' (by simpa using hv) hO' k hk
-  -- the representative with the same keyword set
-  let s := (kwUniverse O W fresh).filter (fun k => decide (k ∈ c'.kw))
-  have hs : ∀ k, k ∈ s ↔ k ∈ c'.kw := by
-    intro k
-    simp only [s, List.mem_filter, decide_eq_true_eq]
-    exact ⟨fun a => a.2, fun a => ⟨hU k a, a⟩⟩
-  have hmem : (⟨c'.npos, s⟩ : Call α) ∈ candidates O W fresh := by
-    simp only [candidates, List.mem_flatMap, List.mem_map, List.mem_range]
-    exact ⟨s, filter_mem_subsets _ _, c'.npos, by omega, rfl⟩
-  have hnone := List.find?_eq_none.mp h _ hmem
-  have e1 : binds O ⟨c'.npos, s⟩ = binds O c' := binds_set_congr O c'.npos s c'.kw hs
-  have e2 : binds W ⟨c'.npos, s⟩ = binds W c' := binds_set_congr W c'.npos s c'.kw hs
-  simp only [uncoveredBy, e1, e2, hO', Bool.true_and, Bool.not_eq_true', Bool.not_eq_false] at hnone
-  simpa using hnone
+  generalize absCall O W fresh c = c' at hO' hW' hnpos hkwK ⊢
+  obtain ⟨n, kw⟩ := c'
+  simp only at hnpos
+  have hn : n ≤ posCap O W := by rw [hnpos]; exact Nat.min_le_right _ _
+  rw [← hnpos]
+  have hreq := req_subset_of_binds O n kw hO'
+  -- the minimal call is accepted by the original
+  have hbO : binds O ⟨n, reqNames O n⟩ = true :=
+    binds_shrink O n kw _ hO' hreq (fun k hk => hk)
+  by_cases hbW : binds W ⟨n, reqNames O n⟩ = true
+  · -- some single further keyword must be rejected by the substitute
+    have : ¬ ∀ k ∈ kw, binds W ⟨n, k :: reqNames O n⟩ = true := by
+      intro hall
+      have := binds_compose W n (reqNames O n) kw hbW hreq hall
+      rw [this] at hW'; exact absurd hW' (by simp)
+    have : ∃ k ∈ kw, binds W ⟨n, k :: reqNames O n⟩ = false := by
+      apply Classical.byContradiction
+      intro hne
+      apply this
+      intro k hk
+      cases hb : binds W ⟨n, k :: reqNames O n⟩ with
+      | true => rfl
+      | false => exact absurd ⟨k, hk, hb⟩ hne
+    obtain ⟨k, hk, hkW⟩ := this
+    have hkr : k ∉ reqNames O n := by
+      intro hkr
+      have e : binds W ⟨n, k :: reqNames O n⟩ = binds W ⟨n, reqNames O n⟩ :=
+        binds_set_congr W n _ _ (fun x => by
+          simp only [List.mem_cons]
+          exact ⟨fun h => h.elim (fun e => e ▸ hkr) id, Or.inr⟩)
+      rw [e, hbW] at hkW; exact absurd hkW (by simp)
+    have hkO : binds O ⟨n, k :: reqNames O n⟩ = true :=
+      binds_shrink O n kw _ hO'
+        (fun x hx => (List.mem_cons.mp hx).elim (fun e => e ▸ hk) (hreq x))
+        (fun x hx => List.mem_cons_of_mem _ hx)
+    -- k lies in the search universe
+    have hU : k ∈ kwUniverse O W fresh := by
+      unfold kwUniverse
+      by_cases hv : hasVarKw O = true
+      · rw [if_pos hv]
+        exact hkwK k hk
+      · rw [if_neg hv]
+        exact kw_subset_of_binds O ⟨n, kw⟩ (by simpa using hv) hO' k hk
+    exact ⟨⟨n, k :: reqNames O n⟩, mem_candidates_one O W fresh n hn k hU hkr,
+      by simp [uncoveredBy, hkO, hkW], rfl,
+      fun x hx => (List.mem_cons.mp hx).elim (fun e => e ▸ hk) (hreq x)⟩
+  · exact ⟨⟨n, reqNames O n⟩, mem_candidates_base O W fresh n hn,
+      by simp [uncoveredBy, hbO, hbW], rfl, hreq⟩
+
+/-- **Completeness of the finite search.** If no representative call form is accepted by `O`
+    and rejected by `W`, then *every* call form accepted by `O` is accepted by `W`. -/
+theorem findUncoveredWith_none (O W : Sig α) (fresh : α) (hf : fresh ∉ knownNames O W)
+    (h : findUncoveredWith O W fresh = none) :
+    ∀ c : Call α, binds O c = true → binds W c = true := by
+  intro c hc
+  cases hW : binds W c with
+  | true => rfl
+  | false =>
+    obtain ⟨c0, hmem, hunc, _, _⟩ := uncovered_core O W fresh hf c hc hW
+    have := List.find?_eq_none.mp h c0 hmem
+    exact absurd hunc this
+
+/-- `allUncoveredWith` lists genuine witnesses only … -/
+theorem allUncoveredWith_sound (O W : Sig α) (fresh : α) (c : Call α)
+    (h : c ∈ allUncoveredWith O W fresh) : binds O c = true ∧ binds W c = false := by
+  simp only [allUncoveredWith, List.mem_filter, uncoveredBy, Bool.and_eq_true,
+    Bool.not_eq_true', Bool.not_eq_eq_eq_not, Bool.not_true] at h
+  exact h.2
+
+/-- … and is empty exactly when the search finds nothing. -/
+theorem allUncoveredWith_nil_iff (O W : Sig α) (fresh : α) :
+    allUncoveredWith O W fresh = [] ↔ findUncoveredWith O W fresh = none := by
+  simp only [allUncoveredWith, findUncoveredWith, List.filter_eq_nil_iff, List.find?_eq_none]
 
 /-! ### Names as natural numbers (the generated tables) -/
 
@@ -116,35 +179,70 @@ theorem findUncovered_none_iff (O W : Sig Nat) :
       rw [h c this.1] at this
       exact absurd this.2 (by simp)
 
-/-- With distinct parameter names in both signatures the witness passes each keyword once,
-    i.e. it is a call one can write down. -/
-theorem findUncovered_some_distinct (O W : Sig Nat) (c : Call Nat)
-    (hO : (names O).Nodup) (hW : (names W).Nodup)
-    (h : findUncovered O W = some c) : c.kw.Nodup := by
-  have hm := List.mem_of_find?_eq_some h
-  simp only [candidates, List.mem_flatMap, List.mem_map] at hm
-  obtain ⟨s, hs, n, _, rfl⟩ := hm
-  have hsub := sublist_of_mem_subsets _ _ hs
-  refine List.Nodup.sublist hsub ?_
-  unfold kwUniverse
-  split
-  · have hK : (knownNames O W).Nodup := by
-      simp only [knownNames]
-      refine List.nodup_append.mpr ⟨hO, hW.filter _, ?_⟩
-      intro a ha b hb
-      simp only [List.mem_filter, Bool.not_eq_eq_eq_not, Bool.not_true, decide_eq_false_iff_not] at hb
-      rintro rfl
-      exact hb.2 ha
-    refine List.nodup_append.mpr ⟨hK, by simp, ?_⟩
-    intro a ha b hb
-    simp only [List.mem_singleton] at hb
-    rintro rfl
-    subst hb
-    exact freshNat_not_mem _ ha
-  · have : ((O.filter (fun p => p.kind.isKwAddr)).map (·.name)).Sublist (names O) := by
-      simp only [names]
-      exact List.Sublist.map _ List.filter_sublist
-    exact List.Nodup.sublist this hO
+/-- Every mis-bound call form contains one of the listed minimal forms. -/
+theorem allUncovered_core (O W : Sig Nat) (c : Call Nat)
+    (hO : binds O c = true) (hW : binds W c = false) :
+    ∃ c0 ∈ allUncovered O W, c0.npos = min c.npos (posCap O W) ∧
+      ∀ k ∈ c0.kw, k ∈ (absCall O W (freshNat (knownNames O W)) c).kw := by
+  obtain ⟨c0, hmem, hunc, h1, h2⟩ :=
+    uncovered_core O W _ (freshNat_not_mem (knownNames O W)) c hO hW
+  exact ⟨c0, by simp [allUncovered, allUncoveredWith, List.mem_filter, hmem, hunc], h1, h2⟩
+
+theorem eq_of_nodup_map {γ β : Type} (f : γ → β) :
+    ∀ (l : List γ), (l.map f).Nodup → ∀ a ∈ l, ∀ b ∈ l, f a = f b → a = b := by
+  intro l
+  induction l with
+  | nil => intro _ a ha; simp at ha
+  | cons x xs ih =>
+    intro h a ha b hb hab
+    simp only [List.map_cons, List.nodup_cons, List.mem_map, not_exists, not_and] at h
+    rcases List.mem_cons.mp ha with rfl | ha' <;> rcases List.mem_cons.mp hb with rfl | hb'
+    · rfl
+    · exact absurd hab.symm (h.1 b hb')
+    · exact absurd hab (h.1 a ha')
+    · exact ih h.2 a ha' b hb' hab
+
+theorem nodup_reqNames (S : Sig α) (n : Nat) (h : (names S).Nodup) : (reqNames S n).Nodup := by
+  -- the two halves are names of disjoint sub-lists of `S`: positional vs keyword-only parameters
+  have hsub1 : (((posParams S).drop n).filter (fun p => !p.hasDefault)).Sublist (posParams S) :=
+    List.filter_sublist.trans (List.drop_sublist _ _)
+  have hpos : ((posParams S).map (·.name)).Nodup :=
+    List.Nodup.sublist (List.Sublist.map _ List.filter_sublist) h
+  have hko : ((S.filter (fun p => p.kind.isKwOnly && !p.hasDefault)).map (·.name)).Nodup :=
+    List.Nodup.sublist (List.Sublist.map _ List.filter_sublist) h
+  simp only [reqNames]
+  refine List.nodup_append.mpr ⟨List.Nodup.sublist (List.Sublist.map _ hsub1) hpos, hko, ?_⟩
+  intro a ha b hb
+  rintro rfl
+  obtain ⟨p, hp, hpa⟩ := List.mem_map.mp ha
+  obtain ⟨q, hq, hqa⟩ := List.mem_map.mp hb
+  have hpS : p ∈ S := mem_posParams (hsub1.subset hp)
+  have hpk : p.kind.isPos = true := by
+    have := hsub1.subset hp
+    simp only [posParams, List.mem_filter] at this
+    exact this.2
+  simp only [List.mem_filter, Bool.and_eq_true] at hq
+  have hqS : q ∈ S := hq.1
+  -- equal names in a Nodup name list ⇒ same parameter
+  have : p = q := by
+    exact eq_of_nodup_map (fun (x : Param α) => x.name) S h p hpS q hqS (hpa.trans hqa.symm)
+  subst this
+  cases hk : p.kind <;> simp [hk, Kind.isPos, Kind.isKwOnly] at hpk hq
+
+/-- With distinct parameter names in the original, every representative form passes each keyword
+    once, i.e. it is a call one can write down. -/
+theorem candidates_distinct (O W : Sig α) (fresh : α) (c : Call α) (hO : (names O).Nodup)
+    (h : c ∈ candidates O W fresh) : c.kw.Nodup := by
+  simp only [candidates, List.mem_flatMap, List.mem_range, List.mem_cons, List.mem_map,
+    List.mem_filter] at h
+  obtain ⟨n, _, h⟩ := h
+  rcases h with rfl | ⟨k, ⟨_, hk⟩, rfl⟩
+  · exact nodup_reqNames O n hO
+  · refine List.nodup_cons.mpr ⟨by simpa using hk, nodup_reqNames O n hO⟩
+
+theorem findUncovered_some_distinct (O W : Sig Nat) (c : Call Nat) (hO : (names O).Nodup)
+    (h : findUncovered O W = some c) : c.kw.Nodup :=
+  candidates_distinct O W _ c hO (List.mem_of_find?_eq_some h)
 
 /-- A substitute `(*args, **kwargs)` accepts every call form. -/
 theorem generic_covers_all (a k : α) (c : Call α) :
@@ -173,5 +271,7 @@ example : binds [⟨0, .posOrKw, false⟩, ⟨9, .varKw, false⟩] ⟨1, [0]⟩ 
 -- the abstraction hypotheses are satisfiable
 example : freshNat (knownNames exO exW) ∉ knownNames exO exW := freshNat_not_mem _
 example : (names exO).Nodup ∧ (names exW).Nodup := by decide +kernel
+-- all minimal mis-bound forms: `stable=` with 0 (a by keyword), 1 or 2 positionals
+example : allUncovered exO exW = [⟨0, [3, 0]⟩, ⟨1, [3]⟩, ⟨2, [3]⟩] := by decide +kernel
 
 end J2O.C19
